@@ -2,7 +2,7 @@
     conclusions say something (a bond really changes, a charge really moves, the additive branch is really taken, no
     ITS is really produced).  Intermediate values are top-level Definitions (no destructuring lets in statements). *)
 From Coq Require Import List NArith ZArith Bool Lia.
-From SK Require Import lib.Tok lib.LGraph model.C03_Model proof.C03_Proof proof.C03_Glue proof.C03_Backward proof.C03_ExplicitH proof.C03_ExplicitShape proof.C03_ExplicitTotal proof.C03_Expand proof.C03_Default proof.C03_Iso proof.C03_Skeleton proof.C03_StripCounts.
+From SK Require Import lib.Tok lib.LGraph model.C03_Model proof.C03_Proof proof.C03_Glue proof.C03_Backward proof.C03_ExplicitH proof.C03_ExplicitShape proof.C03_ExplicitTotal proof.C03_Expand proof.C03_Default proof.C03_Iso proof.C03_Skeleton proof.C03_StripCounts proof.C03_Wiring proof.C03_WiringCount.
 Import ListNotations.
 Local Open Scope Z_scope.
 
@@ -214,3 +214,22 @@ Example ex_synrule_default_counts :
   sum_cnt (gedges (fst (its_decompose (standardize_hydrogen ex_tpl_x)))) [2%N] 1%N = 1 /\
   sum_cnt (gedges (fst (its_decompose (standardize_hydrogen ex_tpl_x)))) [2%N] 3%N = 0.
 Proof. vm_compute. repeat split; reflexivity. Qed.
+
+(** wiring: two independent hydrogen transfers C1 -> C3 (pair id 1) and O2 -> O4 (pair id 2), the recipients listed in
+    the opposite order to the donors (the shape of the seeded change C03-r2-1): each hydrogen stays in its group *)
+Definition ex_T_w : its :=
+  LG [(1%N, IN (at_ C 1 0) (at_ C 0 0) 0 (Some [1%N])); (2%N, IN (at_ Oo 1 0) (at_ Oo 0 0) 0 (Some [2%N]));
+      (4%N, IN (at_ Oo 0 0) (at_ Oo 1 0) 0 (Some [2%N])); (3%N, IN (at_ C 0 0) (at_ C 1 0) 0 (Some [1%N]))]
+     [(1%N, 2%N, (2, 4, -2)); (3%N, 4%N, (4, 2, 2))].
+Definition ex_T_w' : its := match explicit_h ex_T_w with Some r => fst r | None => LG [] [] end.
+Example ex_explicitH_wiring :
+  explicit_h ex_T_w = Some (ex_T_w', [(2%N, 4%N); (1%N, 3%N)]) /\ nodupb (node_ids ex_T_w) = true /\
+  pairs_exactb ex_T_w = true /\ grouped ex_T_w 1%N = true /\ grouped ex_T_w 5%N = false /\
+  occurrences 1%N (map fst [(2%N, 4%N); (1%N, 3%N)]) = 1 /\ dl_of ex_T_w 1%N = 1 /\ dl_of ex_T_w 4%N = -1.
+Proof. vm_compute. repeat split; reflexivity. Qed.
+Example ex_explicitH_wiring_thm : same_group ex_T_w 1%N 3%N /\ same_group ex_T_w 2%N 4%N.
+Proof.
+  destruct ex_explicitH_wiring as (H & Hn & _).
+  destruct (explicit_h_wiring ex_T_w ex_T_w' _ (nodupb_NoDup _ Hn) H) as [_ W].
+  split; [exact (proj1 (W (1%N, 3%N) (or_intror (or_introl eq_refl))))|exact (proj1 (W (2%N, 4%N) (or_introl eq_refl)))].
+Qed.
